@@ -5,6 +5,7 @@ verus! {
 //@include prelude/float_opaque.rs
 //@include prelude/std_assumed.rs
 //@struct file=src/algebra/csc/core.rs name=CscMatrix
+//@include units/inc/csc_colcount_specs.rs
 //@enum file=src/algebra/error_types.rs name=SparseFormatError rules=R12 derive="PartialEq, Eq, Clone, Copy, Structural"
 
 // well-formed encoding as far as the structural operations need it (monotone column pointers from 0 to nnz)
@@ -175,6 +176,40 @@ pub proof fn lemma_keptp_mono(rv: Seq<usize>, sel: Seq<bool>, a: int, b: int)
     ensures 0 <= keptp(rv, sel, a) <= keptp(rv, sel, b), keptp(rv, sel, a) <= a, keptp(rv, sel, b) - keptp(rv, sel, a) <= b - a,
     decreases b,
 { if a < b { lemma_keptp_mono(rv, sel, a, b - 1); } else if a > 0 { lemma_keptp_mono(rv, sel, a - 1, a - 1); } }
+
+// ---- set_entry ----
+// p is the position of `row` in column `col`: rows before it are smaller, rows from it on are not
+pub open spec fn entry_pos(A: CscMatrix<F>, row: int, col: int, p: int) -> bool {
+    &&& A.colptr@[col] <= p <= A.colptr@[col + 1]
+    &&& forall|k: int| A.colptr@[col] <= k < p ==> #[trigger] A.rowval@[k] < row
+    &&& forall|k: int| p <= k < A.colptr@[col + 1] ==> #[trigger] A.rowval@[k] >= row
+}
+pub open spec fn entry_present(A: CscMatrix<F>, row: int, col: int, p: int) -> bool { p < A.colptr@[col + 1] && A.rowval@[p] == row }
+// column pointers after one entry has been inserted into column col
+pub open spec fn colptr_shifted(c0: Seq<usize>, c1: Seq<usize>, col: int) -> bool {
+    c1.len() == c0.len() && forall|c: int| 0 <= c < c0.len() ==> #[trigger] c1[c] == c0[c] + (if c > col { 1int } else { 0int })
+}
+pub open spec fn set_entry_post(A0: CscMatrix<F>, A1: CscMatrix<F>, row: int, col: int, value: F, p: int) -> bool {
+    &&& A1.m == A0.m && A1.n == A0.n
+    &&& entry_present(A0, row, col, p) ==> A1.colptr@ == A0.colptr@ && A1.rowval@ == A0.rowval@ && A1.nzval@ == A0.nzval@.update(p, value)
+    &&& !entry_present(A0, row, col, p) && f_eq(value, f_zero()) ==> A1 == A0
+    &&& !entry_present(A0, row, col, p) && !f_eq(value, f_zero()) ==> {
+            &&& A1.rowval@ == A0.rowval@.insert(p, row as usize) && A1.nzval@ == A0.nzval@.insert(p, value)
+            &&& colptr_shifted(A0.colptr@, A1.colptr@, col) }
+}
+// the column counts sum back to the column pointers (telescoping), with one more entry in column col
+pub proof fn lemma_counts_sum(c0: Seq<usize>, cnt: Seq<usize>, n: int, col: int, c: int)
+    requires
+        c0.len() == n + 1, cnt.len() == n + 1, 0 <= col < n, 0 <= c <= n + 1, c0[0] == 0,
+        forall|i: int| 0 <= i < n ==> c0[i] <= #[trigger] c0[i + 1],
+        forall|i: int| 0 <= i < n ==> #[trigger] cnt[i] == c0[i + 1] - c0[i] + (if i == col { 1int } else { 0int }),
+        cnt[n] == 0,
+    ensures sum_upto(cnt, c) == (if c <= n { c0[c] as int } else { c0[n] as int }) + (if c > col { 1int } else { 0int }),
+    decreases c,
+{
+    if c > 0 { lemma_counts_sum(c0, cnt, n, col, c - 1); }
+}
+
 pub open spec fn nonzero(x: F) -> bool { !f_eq(x, f_zero()) }
 // number of stored entries among the first k whose value is not zero = the slot entry k moves to
 pub open spec fn kept(nz: Seq<F>, k: int) -> int decreases k { if k <= 0 { 0 } else { kept(nz, k - 1) + (if nonzero(nz[k - 1]) { 1int } else { 0int }) } }
@@ -295,18 +330,16 @@ it1
 //@before "for col in 0..self.n"
         proof {
             assert(self.rowval@.len() == self.rowval.len());
-            lemma_mono_all(self.colptr@);
         }
 //@iter 1
 it0
 //@loop 1
         invariant
             it0.seq().len() == self.n, range_from(it0.seq(), 0), dims_ok(*self), colptr_mono(*self), self.rowval@.len() <= usize::MAX,
-            forall|a: int, b: int| 0 <= a <= b < self.colptr@.len() ==> self.colptr@[a] <= self.colptr@[b],
             forall|c: int, k: int| c < it0.index@ && #[trigger] in_col(*self, k, c) && k + 1 < self.colptr@[c + 1] ==> self.rowval@[k] < self.rowval@[k + 1],
 //@body_start 1
             let ghost gc = col as int;
-            proof { assert(self.colptr@[gc] <= self.colptr@[gc + 1] <= self.colptr@[self.n as int]); }
+            proof { lemma_mono_ab(self.colptr@, gc + 1, self.n as int); assert(self.colptr@[gc] <= self.colptr@[gc + 1] <= self.colptr@[self.n as int]); }
             let ghost lo = self.colptr@[gc] as int;
             let ghost hi = self.colptr@[gc + 1] as int;
 //@iter 2
@@ -439,9 +472,9 @@ it2
             None => forall|k: int| #[trigger] in_col(*self, k, idx.1 as int) ==> self.rowval@[k] != idx.0,
         },
 //@pre
-        proof { assert(self.rowval@.len() == self.rowval.len()); lemma_mono_all(self.colptr@); }
+        proof { assert(self.rowval@.len() == self.rowval.len()); }
         let ghost gc = idx.1 as int;
-        proof { assert(self.colptr@[gc] <= self.colptr@[gc + 1] <= self.colptr@[self.n as int]); }
+        proof { lemma_mono_ab(self.colptr@, gc + 1, self.n as int); assert(self.colptr@[gc] <= self.colptr@[gc + 1] <= self.colptr@[self.n as int]); }
 //@before "match usize_binary_search("
         proof {
             lemma_col_sorted(*self, gc);
@@ -574,6 +607,60 @@ it3
                 lemma_keptp_mono(rv0, sel, self.colptr@[a] as int, self.colptr@[b] as int);
             }
         }
+//@end
+
+//@include units/inc/csc_colcount_fns.rs
+
+//@fn file=src/algebra/csc/core.rs in="impl<T> CscMatrix<T>" name=set_entry rules=R1,R23
+//@contract
+    requires canonical(*old(self)), idx.0 < old(self).m, idx.1 < old(self).n,
+    ensures
+        // C16 (entry write): exactly the addressed cell changes: an existing entry is overwritten (also by a zero), a
+        // missing one is inserted in row order unless the value is zero; every other entry keeps its column, row and value
+        exists|p: int| entry_pos(*old(self), idx.0 as int, idx.1 as int, p) && set_entry_post(*old(self), *final(self), idx.0 as int, idx.1 as int, value, p),
+//@pre
+        proof { assert(self.rowval@.len() == self.rowval.len()); assert(self.colptr@.len() == self.colptr.len()); }
+        let ghost gc = idx.1 as int;
+        let ghost gr = idx.0 as int;
+        let ghost A0 = *self;
+        proof { lemma_mono_ab(self.colptr@, gc + 1, self.n as int); assert(self.colptr@[gc] <= self.colptr@[gc + 1] <= self.colptr@[self.n as int]); }
+//@before "let i = usize_partition_point_lt("
+        proof {
+            lemma_col_sorted(*self, gc);
+            assert(rows_in_this_column@ == col_rows(*self, gc));
+        }
+//@after "let i = usize_partition_point_lt("
+        let ghost gp = first as int + i as int;
+        proof {
+            assert forall|k: int| A0.colptr@[gc] <= k < gp implies #[trigger] A0.rowval@[k] < gr by { assert(col_rows(A0, gc)[k - first] == A0.rowval@[k]); }
+            assert forall|k: int| gp <= k < A0.colptr@[gc + 1] implies #[trigger] A0.rowval@[k] >= gr by { assert(col_rows(A0, gc)[k - first] == A0.rowval@[k]); }
+            assert(entry_pos(A0, gr, gc, gp));
+            if i < rows_in_this_column@.len() { assert(rows_in_this_column@[i as int] == A0.rowval@[gp]); }
+        }
+//@before "return;"
+                proof { assert(set_entry_post(A0, *self, gr, gc, value, gp)); }
+//@after "self.colptr_to_colcount();"
+            let ghost cnt0 = self.colptr@;
+            proof {
+                assert(self.rowval@.len() == self.rowval.len());
+                assert(self.rowval@.len() == A0.rowval@.len() + 1);
+                assert(cnt0[gc] == A0.colptr@[gc + 1] - A0.colptr@[gc]);
+            }
+//@before "self.colcount_to_colptr();"
+            let ghost cnt1 = self.colptr@;
+            proof {
+                assert(self.rowval@.len() == self.rowval.len());
+                lemma_counts_sum(A0.colptr@, cnt1, self.n as int, gc, self.n + 1);
+            }
+//@after "self.colcount_to_colptr();"
+            proof {
+                assert forall|c: int| 0 <= c < A0.colptr@.len() implies #[trigger] self.colptr@[c] == A0.colptr@[c] + (if c > gc { 1int } else { 0int }) by {
+                    lemma_counts_sum(A0.colptr@, cnt1, self.n as int, gc, c);
+                }
+                assert(set_entry_post(A0, *self, gr, gc, value, gp));
+            }
+//@after "self.nzval[first + i] = value;"
+            proof { assert(self.nzval@ =~= A0.nzval@.update(gp, value)); assert(set_entry_post(A0, *self, gr, gc, value, gp)); }
 //@end
 
 //@fn file=src/algebra/csc/core.rs in="impl<T> CscMatrix<T>" name=is_triu rules=R1,R21,R5 ret=r
